@@ -7,25 +7,25 @@ _TB = ("Trusted base: clang 14 front end (AST, CFG, constant evaluator), the pyt
 
 CLAIMS = {
     "C01": {
-        "text": "Decides the table/database/dispatch clauses only: every entry of the encoder's constant lookup tables equals an independent oracle (exhaustive, 1237 entries), every instruction row's main/alt opcode (prefix, map, byte, /digit) occurs in a db/isa_x86.json form of the mnemonic (1769 cells), every encoding class has a dispatch case, FIXUP_GPB constants, pc-relative displacements account for the trailing immediate, generated tables regenerate identically (thorough). Does not decide prefix/ModRM/immediate arithmetic over operand values.",
+        "text": "Decides the table/database/dispatch clauses only: every entry of the encoder's constant lookup tables equals an independent oracle (exhaustive, 1237 entries), every instruction row's main/alt opcode (prefix, map, byte, /digit) occurs in a db/isa_x86.json form of the mnemonic (1769 cells), every encoding class has a dispatch case, FIXUP_GPB constants, pc-relative displacements account for the trailing immediate and take the current position from the writer cursor, REX is the last prefix and FWAIT precedes the overrides on every path, register ids are not compared before FIXUP_GPB, packed ModRM fields are not tested after a merge, generated tables regenerate identically (thorough). Does not decide ModRM/immediate arithmetic over operand values.",
         "design_ref": "DESIGN.md section 3 / C01",
         "note": _TB,
         "technique": "constant-evaluated table dump (clang APValue) compared with independent oracle tables and the ISA database; switch-coverage lint",
     },
     "C02": {
-        "text": "Decides: every register id packed into an AArch64 instruction word is range-validated on all CFG paths before the word is emitted (143 sites, validators derived from callee bodies); every encoding class is dispatched and every row indexes inside the data array its class reads; register field positions, stored opcode constants (806) and register-run checks agree with db/isa_aarch64.json. Does not decide immediate/offset arithmetic.",
+        "text": "Decides: every register id packed into an AArch64 instruction word is range-validated on all CFG paths before the word is emitted (143 sites, validators derived from callee bodies); every encoding class is dispatched and every row indexes inside the data array its class reads; register field positions, stored opcode constants (806) and register-run checks agree with db/isa_aarch64.json; every 64-bit immediate is range-tested on all paths before it is narrowed to 32 bits (21 sites) and condition-code immediates are bounded by the CondCode enum. Does not decide immediate/offset field arithmetic.",
         "design_ref": "DESIGN.md section 3 / C02",
         "note": _TB,
         "technique": "must/may forward dataflow over clang CFG (validate-before-emit), switch coverage, table-vs-database agreement",
     },
     "C03": {
-        "text": "Decides bookkeeping/ordering clauses: label ids validated on the taken edge before label entries are dereferenced; the unresolved counter is written only in its inverse-pair forms and subtracted on every exit that ran the fixup iterator; one iterator advance per iteration and release only after a successful patch; survivor splice; OffsetFormat literals satisfy the encoder's preconditions; pc-relative addends account for trailing immediates. Does not decide displacement values.",
+        "text": "Decides bookkeeping/ordering clauses: label ids validated on the taken edge before label entries are dereferenced; the unresolved counter is written only in its inverse-pair forms and subtracted on every exit that ran the fixup iterator; one iterator advance per iteration and release only after a successful patch; survivor splice; OffsetFormat literals satisfy the encoder's preconditions; pc-relative addends account for trailing immediates and use the writer cursor; a label relocation takes offset and section from the same label entry; the displacement codec never narrows a 64-bit displacement without a range or round-trip test. Does not decide displacement values.",
         "design_ref": "DESIGN.md section 3 / C03",
         "note": _TB,
         "technique": "dominance / must-pass-through dataflow on CFG, inverse-pair structural rule, constant-argument checks",
     },
     "C04": {
-        "text": "Decides: RelocType/expression dispatch is complete and defaults to an error; every buffer write of relocate_to_base is dominated by its range/null tests; the .addrtab rewrite recognises exactly call/jmp rel32 and replaces them with FF /2, FF /4 (also against the ISA database); relocation entries are completely initialised with section ids of the right provenance; pc-relative displacements account for trailing immediates. Does not decide relocation arithmetic.",
+        "text": "Decides: RelocType/expression dispatch is complete and defaults to an error; every buffer write of relocate_to_base is dominated by its range/null tests; the .addrtab rewrite recognises exactly call/jmp rel32 and replaces them with FF /2, FF /4 (also against the ISA database); relocation entries are completely initialised with section ids of the right provenance; pc-relative displacements account for trailing immediates; payload and target section come from one label entry, a stored payload is read before it is overwritten, every address-after-field sum in relocate_to_base contains section offset and source offset. Does not decide relocation arithmetic.",
         "design_ref": "DESIGN.md section 3 / C04",
         "note": _TB,
         "technique": "switch coverage, must-assign dataflow after new_reloc_entry, dominance of bounds tests, constant agreement with tables",
@@ -39,7 +39,7 @@ CLAIMS = {
         "technique": "AST extraction of constant setter arguments per (arch branch, convention case) compared with an ABI oracle table",
     },
     "C08": {
-        "text": "Decides capture/replay coverage: every node-creating Builder override is replayed by serialize_to and every node kind dispatched; options/extra register/comment are restored from the node before _emit, operands passed positionally and operands 3..5 refreshed per node; _emit stores everything in the node; the five list-editing functions agree on links, list ends, cursor and dirty flag. The arguments of embed_label / embed_label_delta round-trip positionally through node constructor, field and accessor. Does not decide byte identity.",
+        "text": "Decides capture/replay coverage: every node-creating Builder override is replayed by serialize_to and every node kind dispatched; options/extra register/comment are restored from the node before _emit, operands passed positionally and operands 3..5 refreshed per node; _emit stores everything in the node; the five list-editing functions agree on links, list ends, cursor and dirty flag. The arguments of embed_label / embed_label_delta round-trip positionally through node constructor, field and accessor; the cursor is tested once per removed node on every path; element sizes are computed from the de-abstracted type id in Builder and Assembler alike. Does not decide byte identity.",
         "design_ref": "DESIGN.md section 3 / C08",
         "note": _TB,
         "technique": "call-graph coverage, argument provenance tracing, structural pairing of link assignments",
@@ -47,7 +47,7 @@ CLAIMS = {
     "C09": {
         "text": "Decides accounting/guard/flag clauses C09.a-e: statistics updates come in inverse pairs, release/shrink/query agree on the guards "
                 "applied to a looked-up address, is_initialized distinguishes the null implementation, empty-block policy writes, roll-back in "
-                "new_block. Does not decide disjointness/alignment over histories.",
+                "new_block, every site that sets the empty flag rebuilds the same free-space cache fields, area/byte conversions use the pool's granularity. Does not decide disjointness/alignment over histories.",
         "design_ref": "DESIGN.md section 3 / C09",
         "note": _TB,
         "technique": "inverse-pair and sibling-guard structural rules, constant evaluation, acquire/release pairing on CFG",
@@ -82,7 +82,7 @@ CLAIMS = {
         "technique": "regeneration diff, exhaustive decode of dumped name tables, CFG dominance",
     },
     "C14": {
-        "text": "Decides guard/atomicity clauses: label ids validated before dereference; AArch64 register ids validated before packing; emit functions (x86, a64, Builder) reset one-shot state on every exit, commit bytes only on success, never reach an input-validation exit after a fixup/relocation/address-table commit; the shared failure exit resets state before the handler can throw. Does not decide that every invalid operand kind is rejected, nor operand-indexed table subscripts.",
+        "text": "Decides guard/atomicity clauses: label ids validated before dereference; AArch64 register ids validated before packing; emit functions (x86, a64, Builder) reset one-shot state on every exit, commit bytes only on success, never reach an input-validation exit after a fixup/relocation/address-table commit; the shared failure exit resets state before the handler can throw; AArch64 64-bit immediates are range-tested before narrowing and condition codes are bounded by the enum. Does not decide that every invalid operand kind is rejected, nor operand-indexed table subscripts.",
         "design_ref": "DESIGN.md section 3 / C14",
         "note": _TB,
         "technique": "must-set / reachability dataflow on clang CFG, sibling-guard comparison, index-range vs table-length check",
@@ -101,7 +101,7 @@ CLAIMS = {
     },
     "C17": {
         "text": "Decides structural clauses C17.a-d: every success exit of the offset encoders is range-guarded, stores only OR in masked fields, "
-                "OffsetType/value-size dispatch is complete, ADR/ADRP split positions equal the database fields. Does not decide exactness per value.",
+                "OffsetType/value-size dispatch is complete, ADR/ADRP split positions equal the database fields, no 64-bit displacement is narrowed without a dominating range predicate or a round-trip comparison. Does not decide exactness per value.",
         "design_ref": "DESIGN.md section 3 / C17",
         "note": _TB,
         "technique": "dominance on CFG, expression-shape rule, switch coverage, database field agreement",
